@@ -231,14 +231,16 @@ Fixpoint spec_apply_all (le is64 : bool) (em : Z) (rela : bool) (symvals : list 
 (* the domain of the application clause: listed machine, a well-formed symbol table (entry 0 is
    the undefined symbol), every relocated field inside the section; R_*_NONE at least one
    doubleword before the end (the psABI gives it no field, hence no offset constraint: we do not
-   demand anything there); MIPS64 entries of other types carry no second/third type *)
+   demand anything there); MIPS64 entries of other types carry no second/third type;
+   r_offset below 2^63 (a seekable position) *)
 Definition apply_entry_wf (is64 : bool) (em : Z) (rela : bool) (slen : Z) (e : rent) : bool :=
   match psabi_lookup em rela (r_typ e) with
   | Some (_, FNone) => (0 <=? r_off e) && (r_off e + 8 <=? slen)
   | Some (n, _) => (0 <=? r_off e) && (r_off e + Z.of_nat n <=? slen)
   | None => true
   end &&
-  (negb ((em =? EM_MIPS) && is64) || (r_typ e =? 18) || negb (mips64_compound e)).
+  (negb ((em =? EM_MIPS) && is64) || (r_typ e =? 18) || negb (mips64_compound e)) &&
+  negb ((em =? EM_ARM) && (r_typ e =? 28)).      (* R_ARM_CALL: handled by the library, outside this property *)
 
 Definition apply_wf (is64 : bool) (em : Z) (rela : bool) (symvals : list Z) (s : list Z) (es : list rent) : bool :=
   existsb (Z.eqb em) listed_machines &&
